@@ -718,7 +718,7 @@ func checkC09(w *World) {
 	// R09.10 xmlns="" removes a binding
 	w.namespaceUndeclared(P)
 	// namespace nodes belong to their element: ownership rules of the store
-	w.include(P, "C10", "R10.5", "R10.8")
+	w.include(P, "C10", "R10.2", "R10.3", "R10.5", "R10.8", "R10.9")
 }
 
 // replayOrder: the decoder call is guarded by both pending lists being drained.
@@ -1353,12 +1353,123 @@ func (w *World) charDataMerged(P string, pull *ssa.Function) {
 
 // namespaceUndeclared (R09.10): `xmlns=""` is not a namespace binding: the element and its descendants have no
 // namespace node for the default namespace. The XML adapter reports it as a namespace event with an empty value
-// (it cannot know what the store inherited), so the store, which copies the parent's namespace nodes into every
-// new element, has to (i) construct a namespace node only for a non-empty value and (ii) on an empty value take
-// the inherited node with the same prefix out of the element's list.
+// (it cannot know what the store inherited), so the store has to keep such an event out of the element's list and
+// must not let the element inherit the parent's node for that prefix. Two shapes are recognised:
+//
+//	A (inherit first): nodes are constructed only for non-empty values, and on an empty value the inherited entry
+//	  of that prefix is taken out of the list;
+//	B (declarations first): the element's declarations are collected as they come; the function that completes the
+//	  list keeps a declared node only under NamespaceValue() != "" and tests the parent's prefixes against the
+//	  unfiltered declarations (so an un-declaration still blocks the inheritance of its prefix).
 func (w *World) namespaceUndeclared(P string) {
-	docRule(P, "R09.10", "D+F", "an empty namespace name un-declares: in package store every cursor constructor call whose node is a node.Namespace is reached only under NamespaceValue() != \"\", and on the path where the value is empty and a node with the same prefix was found in the element's list, the list is stored back without that entry (append of the part before and the part after it): `<b xmlns=\"\"/>` has no namespace node with an empty URI and does not keep the default namespace it inherited.")
+	docRule(P, "R09.10", "D+F", "an empty namespace name un-declares: in package store either (A) every constructor call for a node.Namespace is reached only under NamespaceValue() != \"\" and on the empty path the list is stored back without the entry of that prefix, or (B) the function that rebuilds an element's namespaces list keeps a declared entry only under NamespaceValue() != \"\" and hands the unfiltered declarations to the prefix test that decides what is inherited from the parent: `<b xmlns=\"\"/>` has no namespace node with an empty URI and does not keep the default namespace of its parent.")
 	sf := w.StoreFacts()
+	// shape B
+	type rebuild struct {
+		fn       *ssa.Function
+		keeps    int
+		keepsOK  bool
+		predOK   bool
+		predSeen bool
+	}
+	var rb *rebuild
+	w.forAllFuncs("store", func(fn *ssa.Function) {
+		if len(fn.Params) == 0 {
+			return
+		}
+		E := ssa.Value(fn.Params[0])
+		if pt, ok := E.Type().(*types.Pointer); !ok || !types.Identical(pt.Elem(), sf.T) {
+			return
+		}
+		// a store of a freshly made slice into E.namespaces
+		fresh := false
+		allInstrs(fn, func(in ssa.Instruction) {
+			st, ok := in.(*ssa.Store)
+			if !ok {
+				return
+			}
+			fa, ok := st.Addr.(*ssa.FieldAddr)
+			if !ok || fa.X != E || sf.roleOf(fa.Field) != "namespaces" {
+				return
+			}
+			if _, isMake := st.Val.(*ssa.MakeSlice); isMake {
+				fresh = true
+			}
+		})
+		if !fresh {
+			return
+		}
+		r := &rebuild{fn: fn, keepsOK: true}
+		// D: loads of E.namespaces
+		isD := func(v ssa.Value) bool {
+			ld, ok := v.(*ssa.UnOp)
+			if !ok || ld.Op != token.MUL {
+				return false
+			}
+			fa, ok := ld.X.(*ssa.FieldAddr)
+			return ok && fa.X == E && sf.roleOf(fa.Field) == "namespaces"
+		}
+		// the load that the keep loop ranges over: a load of E.namespaces whose elements are appended
+		var D ssa.Value
+		allInstrs(fn, func(in ssa.Instruction) {
+			c, ok := in.(*ssa.Call)
+			if !ok {
+				return
+			}
+			b, ok := c.Call.Value.(*ssa.Builtin)
+			if !ok || b.Name() != "append" || len(c.Call.Args) != 2 {
+				return
+			}
+			var src ssa.Value
+			sliceContains(c.Call.Args[1], func(v ssa.Value) bool {
+				if ia, ok := v.(*ssa.IndexAddr); ok && isD(ia.X) {
+					src = ia.X
+					return true
+				}
+				return false
+			})
+			if src == nil {
+				return
+			}
+			D = src
+			r.keeps++
+			guarded := false
+			for _, a := range guardAtoms(c.Block()) {
+				if isT, eqTrue := emptyNamespaceTest(a.V); isT && a.Pol != eqTrue {
+					guarded = true
+				}
+			}
+			if !guarded {
+				r.keepsOK = false
+			}
+		})
+		if r.keeps == 0 {
+			return
+		}
+		// the prefix test gets the unfiltered declarations
+		allInstrs(fn, func(in ssa.Instruction) {
+			c, ok := in.(*ssa.Call)
+			if !ok {
+				return
+			}
+			sc := staticCallee(c)
+			if sc == nil || fnPkgKey(sc) != "store" || !comparesPrefix(sc) || len(c.Call.Args) == 0 {
+				return
+			}
+			r.predSeen = true
+			if c.Call.Args[0] == D {
+				r.predOK = true
+			}
+		})
+		rb = r
+	})
+	if rb != nil {
+		w.check(P, "R09.10", "declared namespaces kept by "+rb.fn.Name(), rb.fn.Pos(), rb.keepsOK, fmt.Sprintf("every declared entry that is kept in the rebuilt list is kept under NamespaceValue() != \"\": %v (%d keep sites)", rb.keepsOK, rb.keeps))
+		w.check(P, "R09.10", "un-declarations block inheritance in "+rb.fn.Name(), rb.fn.Pos(), rb.predSeen && rb.predOK, fmt.Sprintf("the prefix test that decides what is inherited is given the unfiltered declarations: %v (with the filtered list an `xmlns=\"\"` would be forgotten and the parent's default namespace inherited again)", rb.predSeen && rb.predOK))
+		w.floor(P, "R09.10", 2)
+		return
+	}
+	// shape A
 	n := 0
 	w.forAllFuncs("store", func(fn *ssa.Function) {
 		allInstrs(fn, func(in ssa.Instruction) {
@@ -1414,7 +1525,6 @@ func (w *World) namespaceUndeclared(P string) {
 			if !ok1 || !ok2 || s1.High == nil || s2.Low == nil {
 				return
 			}
-			// s2.Low == s1.High + 1
 			bo, ok := s2.Low.(*ssa.BinOp)
 			if !ok || bo.Op != token.ADD || bo.X != s1.High {
 				return
